@@ -19,7 +19,8 @@ RULE = ('geometry recipes (gens/geo.py): rectangular with drawn spacings/origin 
         'check on raw columns), independent Fortran-style writer -> library reader; the 7 shipped files whole. '
         'Non-trivial = any non-default header option, surface, well, specified centre or non-rectangular mesh; '
         'distinct = distinct recipe JSON.'
-        ' Also: the geometry object is extracted again after write() (must be unchanged) and written twice (same file); up to three assignments to block_order / atmosphere_type through the property setters before the write.')
+        ' Also: the geometry object is extracted again after write() (must be unchanged) and written twice (same file); up to three assignments to block_order / atmosphere_type through the property setters before the write.'
+        ' Rounds 7-10: columns renamed so that records read like keywords or numbers (also zero-padded, conventions 1/2); surfaces below the model bottom; coordinates needing all ten columns (fewer decimals expected); files read into the written object itself or into an object holding another geometry; wells whose track comes up again.')
 ASSUMPTIONS = ['names written to files are right-justified (format documentation); well names have 5 characters',
                'surface elevations are either exactly a layer boundary value or at least 2% of a layer away from one, '
                'so 2-decimal rounding cannot legitimately change the block list (layers are >= 0.5 thick)',
